@@ -219,6 +219,13 @@ def gen_script(rng, logic=None, incremental=False, options=(), produce_models=Tr
                 return "(distinct (bf %s) (bf %s) (bf %s))" % (a, b, c)
             if j < 0.55:
                 return "(and (not (= (bf %s) (bf %s))) (not (= (bf %s) (bf %s))) (= %s (bq %s)))" % (a, b, a, c, rng.choice(g.boolvars), b)
+            if j < 0.62 and g.num and not g.dl:
+                # an arithmetic (dis)equality as the Boolean argument: it must be interpreted by the arithmetic solver as well
+                x = rng.choice(g.numvars)
+                c = rng.randint(-3, 5)
+                inner = rng.choice(["(= %s %d)" % (x, c) if c >= 0 else "(= %s (- %d))" % (x, -c), "(= (* 3 %s) %s)" % (x, "7" if g.num == "Int" else "6.0"), "(distinct %s %s)" % (x, rng.choice(g.numvars))])
+                cs = "%d" % c if c >= 0 else "(- %d)" % -c
+                return "(and (<= %s %s) (>= %s %s) (not (= (bf %s) (bf %s))))" % (x, cs, x, cs, inner, rng.choice(["true", "false"]))
             if j < 0.7:
                 # a Boolean combination that occurs ONLY below bf (never as a formula of its own), its components forced elsewhere
                 q, r2 = rng.sample(g.boolvars, 2)
